@@ -122,6 +122,35 @@ theorem from68_to68_fails_at_min :
     from68 0x80000000 = .fin ⟨-8388608, 104⟩ ∧ to68 (-8388608) 104 = 0xFFC00000 ∧
     from68 0xFFC00000 = .fin ⟨-4194304, -151⟩ := by decide
 
+/-- **Code 68, canonical-word lemma (precise equivalence)**: `to68 (from68 u) = u` holds exactly for the canonical
+words (`Canon68`: positive — top fraction bit set, or exponent field 0 with a non-zero fraction, or the zero word
+`0x40000000`; negative — fraction in `1 … 2^22`, or exponent field 255 with a fraction above `2^22`); every other
+word is re-encoded to a different (normalised) word of the same value (`from68_to68_partial`). -/
+theorem to68_from68_fixed_iff (u : Nat) (hu : u < 2 ^ 32) :
+    (∃ d, from68 (u : Int) = .fin d ∧ to68 d.m d.e = u) ↔ Canon68 (fld u 31 1) (fld u 23 8) (fld u 0 23) := by
+  have hd := from68_dy (u : Int)
+  rw [low64_natCast u (Nat.lt_of_lt_of_le hu (by decide))] at hd
+  have hs : fld u 31 1 ≤ 1 := by unfold fld; omega
+  have hE : fld u 23 8 < 256 := by unfold fld; omega
+  have hF : fld u 0 23 < 8388608 := by unfold fld; omega
+  have hdec : fld u 31 1 * 2147483648 + fld u 23 8 * 8388608 + fld u 0 23 = u := by
+    unfold fld; simp only [Nat.reducePow, Nat.div_one] at hu ⊢; omega
+  have key := reenc_fixed_iff _ _ _ hs hE hF
+  rw [hdec] at key
+  unfold reenc at key
+  constructor
+  · rintro ⟨d, h1, h2⟩
+    rw [hd] at h1
+    cases h1
+    exact key.1 h2
+  · intro hc
+    exact ⟨_, hd, key.2 hc⟩
+
+example : Canon68 (fld 0xBBB38000 31 1) (fld 0xBBB38000 23 8) (fld 0xBBB38000 0 23) := by
+  unfold Canon68; decide
+example : ¬ Canon68 (fld 0x44000001 31 1) (fld 0x44000001 23 8) (fld 0x44000001 0 23) := by
+  unfold Canon68; decide
+
 /-- the range in which `to68` neither clamps nor depresses the mantissa: `2^-129 ≤ |m·2^e| < 2^127`, expressed
 through the exponent that `frexp` returns -/
 def InRange68 (m e : Int) : Prop := m ≠ 0 ∧ -128 ≤ frexpExp m e ∧ frexpExp m e ≤ 127
